@@ -112,6 +112,39 @@ def Policy.allowInstancesOf (W : World) (p : Policy) (cs : List ObjId) : Policy 
       { p with classes := p.classes ++ [k] })
     ((p.allowBasicTypes).allowTypes (["instance", "class", "classobj", "module"].map utf8))
 
+/-- one argument of `allowModules(*modules)`, in every form the method accepts -/
+inductive ModArg where
+  | bytes (b : Bytes)          -- a name as bytes: stored as it is
+  | str (s : String)           -- a name as str: `.encode("utf-8")`
+  | obj (name : String)        -- a module object: `module = module.__name__`, then encoded
+  deriving Repr
+
+/-- the key `allowModules` stores for the argument -/
+def ModArg.key : ModArg → Bytes
+  | .bytes b => b
+  | .str s => utf8 s
+  | .obj n => utf8 n
+
+/-- `allowModules(*modules)` on arguments of any form -/
+def Policy.allowModuleArgs (p : Policy) (as : List ModArg) : Policy := p.allowModules (as.map ModArg.key)
+
+/-- one argument of `allowTypes(*types)` -/
+inductive TypeArg where
+  | bytes (b : Bytes)
+  | str (s : String)           -- `.encode("utf-8")`
+  | cls (k : ObjId)            -- anything else: `typ = qual(typ)`, a *str* key
+  deriving Repr
+
+/-- the bytes key `allowTypes` stores; a class object is stored under the str `qual(cls)`, which no type name
+    (always looked up as bytes) equals: nothing is added -/
+def TypeArg.key? : TypeArg → Option Bytes
+  | .bytes b => some b
+  | .str s => some (utf8 s)
+  | .cls _ => none
+
+/-- `allowTypes(*types)` on arguments of any form -/
+def Policy.allowTypeArgs (p : Policy) (as : List TypeArg) : Policy := p.allowTypes (as.filterMap TypeArg.key?)
+
 /-- `isTypeAllowed` on the utf-8 bytes of the type name -/
 def Policy.isTypeAllowed (p : Policy) (t : Bytes) : Bool := p.types.contains t || t.contains 46
 def Policy.isModuleAllowed (p : Policy) (name : String) : Bool := p.modules.contains (utf8 name)
